@@ -79,27 +79,37 @@ theorem C02_write_read (T : Tables) (x : Scn) (m : PB) (hw : encodePb T x = .ok 
 theorem C02_fill_fresh (x : Scn) (b : Bool) : fillScn (.msg []) x b = encScn (x.only b) := by
   cases b <;> simp [fillScn, encScn, Scn.only, PB.get, PB.items]
 
-/-- **A writer object has no memory**: whatever calls (`write_to_file` / `write_scenario_to_file`, any number, any order)
-    were made on it before, every call writes exactly the message of ITS scenario (without planning problems for
-    `write_scenario_to_file`) — the file does not depend on the history of the writer object. -/
-theorem C02_writer_history (x : Scn) : ∀ (w : Wr) (ops : List Bool), w.run x ops = ops.map fun b => encScn (x.only b)
+/-- **A writer object has no memory**: whatever calls (`write_to_file` / `write_scenario_to_file`, any number, any order,
+    the scenario edited in between, calls that raised in between) were made on it before, every call writes exactly the
+    message of the scenario AS IT IS AT THAT CALL (without planning problems for `write_scenario_to_file`). -/
+theorem C02_writer_history : ∀ (w : Wr) (calls : List (Scn × Bool)), w.run calls = calls.map fun c => encScn (c.1.only c.2)
   | _, [] => rfl
-  | w, b :: r => by
+  | w, c :: r => by
     simp only [Wr.run, List.map_cons, Wr.write, C02_fill_fresh]
-    rw [C02_writer_history x _ r]
+    rw [C02_writer_history _ r]
 
-/-- so every file of a reused writer reads back as the content handed to the writer -/
-theorem C02_writer_history_read (x : Scn) (h : x.wf = true) (w : Wr) (ops : List Bool) :
-    (w.run x ops).map decodePb = ops.map fun b => .ok (normPb (x.only b)) := by
-  rw [C02_writer_history x w ops, List.map_map]
+theorem only_wf (x : Scn) (b : Bool) (h : x.wf = true) : (x.only b).wf = true := by
+  cases b
+  · simp only [Scn.wf, Bool.and_eq_true] at h ⊢
+    simp [Scn.only, h.1]
+  · exact h
+
+/-- so every file of a reused writer reads back as the content the scenario had at that call -/
+theorem C02_writer_history_read (w : Wr) (calls : List (Scn × Bool)) (h : ∀ c ∈ calls, c.1.wf = true) :
+    (w.run calls).map decodePb = calls.map fun c => .ok (normPb (c.1.only c.2)) := by
+  rw [C02_writer_history w calls, List.map_map]
   apply List.map_congr_left
-  intro b _
-  have hw : (x.only b).wf = true := by
-    cases b
-    · simp only [Scn.wf, Bool.and_eq_true] at h ⊢
-      simp [Scn.only, Scn.wf, h.1]
-    · exact h
-  exact C02_pb_roundtrip _ hw
+  intro c hc
+  exact C02_pb_roundtrip _ (only_wf c.1 c.2 (h c hc))
+
+/-- a call that raises (unwritable scenario) does not disturb the later calls: call `i` of the checked history is decided by
+    the scenario of call `i` alone -/
+theorem C02_writer_history_checked (T : Tables) (w : Wr) (calls : List (Scn × Bool)) :
+    w.runChecked T calls = calls.map fun c => encodePb T (c.1.only c.2) := by
+  simp only [Wr.runChecked, C02_writer_history, List.map_map]
+  apply List.map_congr_left
+  intro c _
+  simp only [Function.comp, encodePb]
 
 /-- **Witness: the reset is load-bearing.**  Filling the message left behind by an earlier write instead of a fresh one
     (what a `write_scenario_to_file` without `self._commonroad_msg = CommonRoad()` does) writes every lanelet twice. -/
